@@ -480,7 +480,8 @@ theorem safe_of_structure {L : Levels} {rm : List Nat} {lvl : Nat} {add : List R
     (h1 : 1 ≤ lvl) (h2 : lvl < L.length)
     (htarget : ∀ t ∈ L.getD lvl [], rmP rm t = true)
     (hbelow : ∀ i, lvl < i → ∀ t ∈ L.getD i [], rmP rm t = false)
-    (hl0 : (L.headD []).Pairwise (fun older newer => rmP rm newer = true → rmP rm older = true))
+    (hl0 : (L.headD []).Pairwise (fun older newer =>
+      rmP rm newer = true → rmP rm older = false → DisjointKeys newer.run older.run))
     (hclosed : ∀ i j, i < j → j < lvl → (∃ t ∈ L.getD i [], rmP rm t = true) → ∀ t ∈ L.getD j [], rmP rm t = true)
     (hadd : add.flatten = mergeAll (((readOrder L).filter (rmP rm)).map (·.run)))
     (hchunks : (∀ r ∈ add, r ≠ []) ∨ add = [[]]) : SafeCS L rm lvl add := by
@@ -501,9 +502,7 @@ theorem safe_of_structure {L : Levels} {rm : List Nat} {lvl : Nat} {add : List R
     · rw [List.pairwise_reverse]
       have : (l0 :: (D1 ++ Lv :: D2)).headD [] = l0 := rfl
       rw [this] at hl0
-      refine List.Pairwise.imp ?_ hl0
-      intro a b hab hpb hpa
-      rw [hab hpb] at hpa; cases hpa
+      exact hl0
     · rw [List.pairwise_flatten]
       refine ⟨?_, ?_⟩
       · intro l hl
